@@ -198,7 +198,9 @@ const fn mul_add(mut ui_a: u32, mut ui_b: u32, mut ui_c: u32, op: MulAddType) ->
         } else {
             if reg_z == 30 {
                 bit_n_plus_one = (exp_z & 0x2) != 0;
-                bits_more = (exp_z & 0x1) != 0;
+                if (exp_z & 0x1) != 0 {
+                    bits_more = true;
+                }
                 exp_z = 0;
             } else if reg_z == 29 {
                 bit_n_plus_one = (exp_z & 0x1) != 0;
